@@ -334,11 +334,12 @@ impl std::str::FromStr for Deb822 {
                         }
                     }
 
-                    // Trim the trailing newline
-                    assert_eq!(
-                        current_paragraph.last_mut().unwrap().value.pop(),
-                        Some('\n')
-                    );
+                    // Trim the trailing newline, if there is one: the last
+                    // continuation line may end at end-of-file instead.
+                    let value = &mut current_paragraph.last_mut().unwrap().value;
+                    if value.ends_with(crate::common::is_newline) {
+                        value.pop();
+                    }
                 }
                 SyntaxKind::VALUE => {
                     return Err(Error::UnexpectedToken(k, t.to_string()));
